@@ -431,6 +431,17 @@ def r15_6(run):
                 return all(_boolish(x) for x in v.values)
             if isinstance(v, ast.IfExp):
                 return _boolish(v.body) and _boolish(v.orelse)
+            if isinstance(v, ast.Subscript) and isinstance(v.value, ast.Name):
+                # a lookup in a module-level table all of whose values are booleans: `_SETTINGS[MEM_GUARD]`
+                b_ = mod.symbols.get(v.value.id)
+                tv = getattr(b_, "value", None) if b_ is not None and getattr(b_, "kind", "") == "assign" and len(getattr(b_, "all_values", []) or []) == 1 else None
+                if isinstance(tv, ast.Dict) and tv.values and all(isinstance(x, ast.Constant) and isinstance(x.value, bool) for x in tv.values):
+                    return True
+            if isinstance(v, ast.Call) and isinstance(v.func, ast.Attribute) and v.func.attr == "get" and isinstance(v.func.value, ast.Name) and len(v.args) == 2:
+                b_ = mod.symbols.get(v.func.value.id)
+                tv = getattr(b_, "value", None) if b_ is not None and getattr(b_, "kind", "") == "assign" and len(getattr(b_, "all_values", []) or []) == 1 else None
+                if isinstance(tv, ast.Dict) and tv.values and all(isinstance(x, ast.Constant) and isinstance(x.value, bool) for x in tv.values):
+                    return _boolish(v.args[1])
             return isinstance(v, ast.Call) and dotted(v.func) == "bool"
 
         ok = bool(vals) and all(v is not None and _boolish(v) for v in vals)
